@@ -107,7 +107,10 @@ def tree_step(c, cls, v):
     x, r = c.avec('x'), c.avec('r'); eps = c.real('eps', pos=True); Ham = c.real('Ham'); log_u = c.real('log_u')
     if c.sym:
         j = sint('j'); core.ST.base.append(j.t >= 1)
-    else: j = 3
+        md = sint('max_depth'); core.ST.base.append(md.t >= j.t)       # a tree of depth j is only built while j <= max_depth
+    else: j = 3; md = 3 + int(c.real('md_extra', lo=0, hi=1.999))
+    if isinstance(getattr(cls, 'max_depth', None), property): s._max_depth = md      # stateful interface: backing field of the property
+    else: s.max_depth = md                                                           # legacy: plain attribute
     u = c.next_uniform('u_sel')
     out = cls._BuildTree(s, x, r, G(x), Ham, log_u, v, j, eps)
     (pm, rm, gm, pp, rp, gp, pc, lc, gc, n, st, al, na) = out
